@@ -4,6 +4,7 @@ Malformed arguments (wrong shape, a repeated dictionary key, a negative stoichio
 -/
 import ChemModel.Basic.Proto
 import ChemModel.Model.Kinetics
+import ChemModel.Model.ReactionText
 
 namespace ChemModel.KineticsIO
 open Lean ChemModel.Proto ChemModel.Kinetics
@@ -107,5 +108,27 @@ def showErr : Err → String
   | .valueError => "ValueError"
   | .indexError => "IndexError"
   | .attributeError => "AttributeError"
+  | .keyError => "KeyError"
+
+/-- refusal of a reaction LINE by the text reader (C12's model `ReactionText.toRaw`, i.e. `to_reaction` up to the constructor):
+    `ok`, `ValueError` (missing arrow, too many parts in a term, unknown substance key, bad number) or `!unmodelled` -/
+def parseRefusal (keys : List String) (line : String) : String :=
+  match ChemModel.ReactionText.toRaw (.list (keys.map String.toList)) "->".toList line.toList with
+  | .ok _ => "ok"
+  | .error .unmodelled => "!unmodelled"
+  | .error _ => "ValueError"
+
+/-- a reaction whose `param` is either a number (`param`) or the name of a variable (`param_key`); `none` = `KeyError` -/
+def resolveRxn (vars : List (String × Rat)) (v : Json) : Except String (Option (Reaction String Rat)) := do
+  match v.getObjVal? "param_key" with
+  | .ok (.str name) =>
+      let reac ← asDict "reac" asNat (← field v "reac")
+      let prod ← asDict "prod" asNat (← field v "prod")
+      let ir ← asDict "inact_reac" asNat (← field v "inact_reac")
+      let ip ← asDict "inact_prod" asNat (← field v "inact_prod")
+      match resolveParam vars (Param.key name) with
+      | none => pure none
+      | some k => pure (some { reac := reac, prod := prod, inactReac := ir, inactProd := ip, param := k })
+  | _ => do pure (some (← asRxn v))
 
 end ChemModel.KineticsIO
